@@ -768,7 +768,9 @@ func (fx *FuncExec) execInstr(fn *ssa.Function, st *State, reach *Term, in ssa.I
 			sort.Slice(sends, func(i, j int) bool { return sends[i].Pos() < sends[j].Pos() })
 			for i, s2 := range sends {
 				if s2 == ins {
-					reach = fx.runAnchors(fn, st, reach, fmt.Sprintf("send#%d", i+1), []Value{fx.valueOf(st, ins.X)}, src)
+					if ac := fx.anchorContract(fn); ac != nil {
+						reach = fx.runAnchors(fn, ac, st, reach, fmt.Sprintf("send#%d", i+1), []Value{fx.valueOf(st, ins.X)}, src)
+					}
 				}
 			}
 		}
